@@ -86,13 +86,32 @@ Theorem C05_fresh_hypothesis_needed : exists (acts : list (action nat)) (h h' : 
 Proof. exact fresh_hypothesis_needed. Qed.
 Print Assumptions C05_fresh_hypothesis_needed.
 
-(* FULL strength for the queries (time decoding, value-to-index lookup, dump/repr, save) since the fixes
-   C05-getTimes-copy and the val2idx copies: they leave the heap exactly as it was and return no buffer. *)
-Theorem C05_queries_pure : forall (c : nat) A (junk : list A) (h : heap A),
-  isolated (Query c) = true
-  /\ run_actions A h (actions_of (impl_effs (Query c)) [] junk) = (h, []).
+(* FULL strength for the queries (time decoding, value-to-index lookup, dump/repr, save): whatever the file (any number of
+   variables, in memory or disk-backed) they leave the heap exactly as it was and return no buffer. *)
+Theorem C05_queries_pure : forall (c : call) (mem : bool) (vars : list nat) A (junk : list A) (h : heap A),
+  is_query c = true ->
+  run_actions A h (actions_of (impl_effs (Call c mem vars)) [] junk) = (h, []).
 Proof. exact queries_pure. Qed.
 Print Assumptions C05_queries_pure.
+
+(* The buffer-level transcription of every catalogued call (Model/Alias.v prog_of: the statements of core/_files.py and
+   core/_functions.py that create, store or write arrays) has no effect on any input buffer, for EVERY list of input
+   variables and every backing (induction over the variable list). *)
+Theorem C05_programs_safe : forall (c : call) (v : nat -> src) (vars : list nat), exec (prog_of c v vars) = [].
+Proof. exact all_safe. Qed.
+Print Assumptions C05_programs_safe.
+
+(* ... and the transcription can tell: the statements that the repaired calls used to contain do have effects. *)
+Theorem C05_old_statements_have_effects :
+  exec [StoreObject (SVar 2)] = [EAlias 2]
+  /\ exec [StoreObject (SView (SVar 2))] = [EAlias 2]
+  /\ exec [CreateValues (SView (SVar 0))] = [EAlias 0]
+  /\ exec [StoreObject (SView (SView (SView (SView (SVar 3)))))] = [EAlias 3]
+  /\ exec [StoreObject (SView (SView (SVar 1)))] = [EAlias 1]
+  /\ exec [Inplace (SView (SView (SVar 1)))] = [EMutate 1]
+  /\ exec [StoreObject (SView (SDisk 2))] = [].
+Proof. exact old_statements_have_effects. Qed.
+Print Assumptions C05_old_statements_have_effects.
 
 (* Non-vacuity *)
 Example C05_history_inhabited :
@@ -102,6 +121,8 @@ Example C05_history_inhabited :
 Proof. vm_compute. split; reflexivity. Qed.
 
 Example C05_isolated_inhabited :
-  isolated (Clean 3) = true /\ isolated (Query 7) = true
-  /\ run_actions nat [[1; 2]] (actions_of (impl_effs (Clean 0)) [[1; 2]; [7]] []) = ([[1; 2]; [1; 2]; [7]], [1; 2]).
+  isolated (Call Reorder true [0; 1; 2; 3]) = true /\ isolated (Call (EvalName 2) true [0; 1; 2]) = true
+  /\ isolated (Call (Val2idxBounds 0) true [0; 1]) = true
+  /\ length (prog_of Reorder (var_src true) [0; 1; 2; 3]) = 8
+  /\ run_actions nat [[1; 2]] (actions_of (impl_effs (Call Copy true [0])) [[1; 2]; [7]] []) = ([[1; 2]; [1; 2]; [7]], [1; 2]).
 Proof. vm_compute. repeat split; reflexivity. Qed.
